@@ -582,11 +582,17 @@ func (m *UDPMuxDefault) connWorker() { //nolint:cyclop
 		_ = m.Close()
 	}()
 
-	buf := make([]byte, receiveMTU)
+	// One byte more than the largest packet that is passed on: a longer datagram is recognised
+	// (and dropped) instead of being delivered cut off at the buffer size.
+	buf := make([]byte, receiveMTU+1)
 	for {
 		n, srcAddrPort, srcUDPAddr, err := m.readFromUDPConn(buf)
 		if m.IsClosed() {
 			return
+		} else if err == nil && n > receiveMTU {
+			logger.Warnf("Dropping datagram from %s: longer than %d bytes", srcAddrPort, receiveMTU)
+
+			continue
 		} else if err != nil {
 			switch {
 			case os.IsTimeout(err):
